@@ -7,7 +7,8 @@ EXPLANATION = ("Decides necessary conditions for DPOR to consider both orders of
                "per-object dependence tables extracted from last_dependent_access/set_last_access (T1 symmetry, T2 overwrite soundness, "
                "T3 required conflicts, T6 recency selection), wiring of Execution::schedule (T4), dispatch exhaustiveness (T5), and how a detected "
                "race becomes a backtrack point (E1: the racing thread if enabled there, else all threads; B1: walk-back). Completeness of the reduction "
-               "itself and which outcomes appear are not decided.")
+               "itself and which outcomes appear are not decided."
+               " Added after the seeding rounds: the lookup consults only the action, the access slots and markers set_last_access maintains (T7), Thread.dpor_vv is written only at spawn and in schedule (T8), no extra condition on recording a backtrack point (T4), an RMW is offered every maximal store (M5b), and the generic cross-checks G0 (no new condition on a backtrack/arm/branch/record-access step) and G1 (no such step dropped from a path) against the reference tree.")
 RULE_TEXT = ("rule instances = operations (V1/V2), dependence-table cells (T1-T3), wiring events (T4), dispatch arms (T5); "
              "non-trivial when matched to concrete MIR sites")
 LEVEL_NOTE = "necessary conditions only; the DPOR completeness theorem is not decided"
